@@ -54,6 +54,7 @@ def run(ctx):
             a for a in M.F.adts_c if a.endswith("for_each::ForEachFut")}
         with ctx.renamed({"C02.OWN": "C13.OWN"}):
             c02.rule_own(ctx, M, only=lambda cp: cp in adts)
+        rule_group_container(ctx, M, "C13.OWN", ("ForEachConsumer",))
         ctx.floor("C13.BP", cfg, 3)
         ctx.floor("C13.DEC", cfg, 1)
         ctx.floor("C13.CALL", cfg, 1)
@@ -304,6 +305,45 @@ def rule_flush(ctx, M, cname, rule):
         ctx.require(b is not None, "%s::%s coroutine" % (cname, fn))
         bi = costream.effective_body(M, M.info(b))
         costream.drain_loops_exit_only_on_none(ctx, bi, rule, b.def_, "%s returns only after group.next() yielded None (group drained)" % fn)
+
+
+UNORDERED_GROUPS = {"FuturesUnordered", "FuturesUnorderedBounded", "FutureGroup"}
+LEAKS = {("core::mem::forget", "forget"), ("ManuallyDrop", "new"), ("Box", "leak"), ("Vec", "leak"), ("Box", "into_raw"), ("Rc", "new"), ("Arc", "into_raw")}
+
+
+def rule_group_container(ctx, M, rule, consumers):
+    """What the consumer rules assume about the place the in-flight futures are parked: (1) it is a completion-order
+    container (`next()` yields whatever has completed; an ordered queue would park a failed or finished future behind an
+    earlier pending one), owned by value; (2) dropping the consumer drops it: no destructor of the consumer, no
+    `mem::forget` / `ManuallyDrop` / `leak` anywhere in the concurrent-stream module."""
+    F = M.F
+    for cname in consumers:
+        ent = M.consumers.get(cname)
+        if ent is None:
+            continue
+        a = F.adts_c.get(ent["adt"])
+        if a is None:
+            continue
+        gf = [f for f in a["variants"][0]["fields"] if f["name"] == "group"]
+        ok = False
+        tys = None
+        if len(gf) == 1:
+            t = F.types[gf[0]["ty"]]
+            tys = t.get("s")
+            ok = t["k"] == "adt" and (t.get("cpath") or "").rsplit("::", 1)[-1] in UNORDERED_GROUPS
+        ctx.check(ok, rule, ent["adt"].split("futures_concurrency::")[-1], "%s parks its futures in a completion-order container (next() yields whatever completed)" % cname,
+                  site=a.get("span"), sample={"group": tys})
+        ctx.check(not a.get("has_drop"), rule, ent["adt"].split("futures_concurrency::")[-1], "%s has no destructor of its own: dropping it drops the group and every in-flight future" % cname,
+                  site=a.get("span"))
+    bad = []
+    for b in F.bodies:
+        if "concurrent_stream::" not in b.def_ or b.kind in ("Const", "AnonConst") or "::test::" in b.def_ or "::tests::" in b.def_:
+            continue
+        for s in M.info(b).sites:
+            if not s.callee.indirect and s.callee.key in LEAKS:
+                bad.append("%s::%s at %s" % (s.callee.key[0], s.callee.key[1], s.where))
+    ctx.check(not bad, rule, "<crate>::concurrent_stream", "nothing in the concurrent-stream module forgets or leaks a value (in-flight futures are dropped with their owner)",
+              path=bad[:4])
 
 
 def find_costream(M, suffix):
